@@ -383,6 +383,30 @@ class _CG:
             return f"(pyCmp .{tag} {self.iexp(l)} {self.iexp(r)})"
         raise TranslationFailure(f"check_groups: unsupported test {ast.unparse(e)}")
 
+    def is_type_guard(self, st):
+        """`if [not] all/any(<boolean combination of isinstance(elem, T)> for elem in <index list>): raise ...`"""
+        if st.orelse or len(st.body) != 1 or not isinstance(st.body[0], ast.Raise):
+            return False
+        t = st.test
+        if isinstance(t, ast.UnaryOp) and isinstance(t.op, ast.Not):
+            t = t.operand
+        if not (isinstance(t, ast.Call) and isinstance(t.func, ast.Name) and t.func.id in ("all", "any") and len(t.args) == 1
+                and isinstance(t.args[0], ast.GeneratorExp) and len(t.args[0].generators) == 1):
+            return False
+        gen = t.args[0].generators[0]
+        if gen.ifs or not (isinstance(gen.iter, ast.Name) and gen.iter.id in self.lists and isinstance(gen.target, ast.Name)):
+            return False
+        elem = gen.target.id
+
+        def only_isinstance(e):
+            if isinstance(e, ast.BoolOp):
+                return all(only_isinstance(v) for v in e.values)
+            if isinstance(e, ast.UnaryOp) and isinstance(e.op, ast.Not):
+                return only_isinstance(e.operand)
+            return (isinstance(e, ast.Call) and isinstance(e.func, ast.Name) and e.func.id == "isinstance" and len(e.args) == 2
+                    and isinstance(e.args[0], ast.Name) and e.args[0].id == elem)
+        return only_isinstance(t.args[0].elt)
+
     def raise_tag(self, st):
         if not (isinstance(st, ast.Raise) and isinstance(st.exc, ast.Call) and isinstance(st.exc.func, ast.Name)):
             raise TranslationFailure("check_groups: unsupported raise")
@@ -420,6 +444,10 @@ class _CG:
             self.lists.add(name)
             return (src + f"{pad}-- {ast.unparse(loop).splitlines()[0]} ...\n"
                     + f"{pad}let {name} : List Int := groups.foldl (fun acc g => acc ++ g) []\n" + self.block(rest[1:], ind))
+        if isinstance(st, ast.If) and self.is_type_guard(st):
+            # e.g. `if not all(isinstance(i, Integral) and not isinstance(i, bool) for i in all_indices): raise ...`
+            # never fires on a list of integers (the only inputs of the model): no Lean term
+            return src + f"{pad}--   (type guard on the elements: vacuous on integer indices)\n" + self.block(rest, ind)
         if isinstance(st, ast.If):
             if len(st.body) == 1 and isinstance(st.body[0], ast.Raise) and not st.orelse:
                 return (src + f"{pad}pyIf {self.bexp(st.test)} (fun _ => throw {lean_str(self.raise_tag(st.body[0]))}) fun _ =>\n"
